@@ -7,6 +7,8 @@ struct SynthInfo {
 	int scalars = 0;
 	std::vector<const void*> readRefs, readStrs; // NiRef / NiStringRef objects that were read (addresses inside the block)
 	uint32_t blockId = 0;
+	uint64_t exact = 0;            // hash of the exact sequence of transfers
+	size_t ncodes = 0;             // its length
 	uint64_t tape = 0;             // hash of the sequence of (field kind, size, is-reference, is-string) the reader asked for
 	std::vector<int> scalarKinds;  // FieldKind (or -1 untyped, -2 reference, -3 string) of every scalar transfer, by ordinal
 	// block-level round trip of the synthesised instance, done when asked for (wantRoundTrip): w1 = Put(instance),
